@@ -25,6 +25,9 @@ type Request struct {
 	HC        bool           `json:"hc,omitempty"`     // HIGHER_CONSISTENCY
 	Conc      int            `json:"conc,omitempty"`   // issue this many concurrent copies
 	CancelAt  int            `json:"cancel,omitempty"` // cancel the client ctx at the k-th storage op (1-based; 0 = never)
+	CancelNs  int64          `json:"cancel_ns,omitempty"` // cancel the client ctx this long (virtual) after the call started
+	TimeoutNs int64          `json:"timeout_ns,omitempty"` // client deadline (what the timeout interceptor would set)
+	Streamed  bool           `json:"streamed,omitempty"`
 	Store     string         `json:"-"`                // run-time only: store id to address (default: the scenario's store)
 }
 
@@ -846,4 +849,75 @@ func (g *G) CycleTuples(m *rm.Model) (tuples []rm.Tuple, atoms []string) {
 		return tuples, atoms
 	}
 	return nil, nil
+}
+
+// WideTuples generates data that is big in the two ways C20 names: fan-out (one user on many
+// objects, many users on one object) and long userset chains, optionally closed into a long cycle.
+// ids are outside the small universe of the other generators ("w<k>", "c<k>").
+func (g *G) WideTuples(m *rm.Model, fan, chain int) []rm.Tuple {
+	var out []rm.Tuple
+	type dr struct {
+		typ string
+		rel *rm.Relation
+	}
+	var direct []dr
+	for _, t := range m.Types {
+		for _, r := range t.Relations {
+			if len(r.Restrictions) > 0 {
+				direct = append(direct, dr{t.Name, r})
+			}
+		}
+	}
+	if len(direct) == 0 {
+		return nil
+	}
+	// fan-out
+	for k := 0; k < 2; k++ {
+		d := Pick(g, direct)
+		for _, r := range d.rel.Restrictions {
+			if r.Relation != "" || r.Wildcard {
+				continue
+			}
+			u := r.Type + ":" + Pick(g, userIDs)
+			if r.Type != "user" && r.Type != "employee" {
+				u = r.Type + ":" + Pick(g, objIDs)
+			}
+			for i := 0; i < fan; i++ {
+				t := rm.Tuple{Obj: fmt.Sprintf("%s:w%d", d.typ, i), Rel: d.rel.Name, User: u, Cond: r.Cond}
+				if k == 1 {
+					t = rm.Tuple{Obj: d.typ + ":" + objIDs[0], Rel: d.rel.Name, User: fmt.Sprintf("%s:w%d", r.Type, i), Cond: r.Cond}
+				}
+				if r.Cond != "" {
+					t.Ctx = g.condCtx(m, r.Cond, true)
+				}
+				out = append(out, t)
+			}
+			break
+		}
+	}
+	// chains through a self-referencing userset restriction
+	for _, d := range direct {
+		for _, r := range d.rel.Restrictions {
+			if r.Relation != d.rel.Name || r.Type != d.typ || chain <= 0 {
+				continue
+			}
+			for i := 0; i < chain; i++ {
+				t := rm.Tuple{Obj: fmt.Sprintf("%s:c%d", d.typ, i), Rel: d.rel.Name, User: fmt.Sprintf("%s:c%d#%s", d.typ, i+1, d.rel.Name), Cond: r.Cond}
+				if r.Cond != "" {
+					t.Ctx = g.condCtx(m, r.Cond, true)
+				}
+				out = append(out, t)
+			}
+			if g.Chance(0.5) {
+				// close the cycle
+				t := rm.Tuple{Obj: fmt.Sprintf("%s:c%d", d.typ, chain), Rel: d.rel.Name, User: fmt.Sprintf("%s:c0#%s", d.typ, d.rel.Name), Cond: r.Cond}
+				if r.Cond != "" {
+					t.Ctx = g.condCtx(m, r.Cond, true)
+				}
+				out = append(out, t)
+			}
+			chain = 0
+		}
+	}
+	return out
 }
